@@ -54,14 +54,15 @@ def gen_spec(rng, *, random_units=True, sl_bias=0.35, rules=None, currents=None,
         return in_unit(rng, 'InertiaMoment', dy(rng, 0.01, 1), ru)
 
     def gear_opt(module_si=None, with_E=True):
+        # every subset of (module, face width, elastic modulus) occurs, also the ones that enable nothing
         d = {'module': None, 'fw': None, 'E': None}
         if rng.random() < optional_data:
             m = module_si if module_si is not None else rng.choice([0.5, 1, 1.25, 2, 3]) * 1e-3
             d['module'] = in_unit(rng, 'Length', m, ru)
-            if rng.random() < 0.75:
-                d['fw'] = in_unit(rng, 'Length', rng.choice([5, 8, 10, 20]) * 1e-3, ru)
-                if with_E and rng.random() < 0.7:
-                    d['E'] = in_unit(rng, 'Stress', rng.choice([70, 110, 200, 210]) * 1e9, ru)
+        if rng.random() < 0.75 * optional_data + (0.15 if d['module'] is not None else 0.0):
+            d['fw'] = in_unit(rng, 'Length', rng.choice([5, 8, 10, 20]) * 1e-3, ru)
+        if with_E and rng.random() < 0.6 * optional_data + (0.15 if d['fw'] is not None else 0.0):
+            d['E'] = in_unit(rng, 'Stress', rng.choice([70, 110, 200, 210]) * 1e9, ru)
         return d
 
     want_sl = rng.random() < sl_bias
